@@ -16,7 +16,7 @@ from vlib.api import Part, ok, bad
 
 ID = 'C18'
 LEVEL = 'fault_enumeration'
-RULE = ('Enumerated: 12 ways to end x 3 run lengths x 3 emit costs x 2 heartbeat intervals; generated: the same dimensions with arbitrary k, work, cost, interval, '
+RULE = ('Enumerated: 12 ways to end x 3 run lengths x 3 emit costs x 2 heartbeat intervals x {no, 40 ms} preemption inside event construction; generated: the same dimensions with arbitrary k, work, cost, interval, '
         'external stop time. Non-trivial = the run lasted >= 1 heartbeat interval or ended by an exception. Distinct = distinct case value.')
 ASSUMPTIONS = ['thread interleavings are explored at the shim\'s yield points (Event.wait, Lock, emit), the only synchronisation points of lineage.py',
                'the lineage client is a capturing fake; OPENLINEAGE_DISABLED is unset']
@@ -58,6 +58,16 @@ def run_case(case):
             if case['emit_cost_ms']:
                 world.sleep(case['emit_cost_ms'] / 1000)
 
+    # a preemption point between "may this event still go out?" and the hand-over to the client: building the event is where a
+    # real thread can be descheduled, and a slow transport stretches that window
+    orig_facet = lin.create_openfilter_facet_with_fields
+
+    def facet(*a, **kw):
+        # only the heartbeat thread is held up (a preemption hits one thread, not both)
+        if case.get('preempt_ms') is not None and world.current is not None and world.current.name != 'main':
+            world.sleep(case['preempt_ms'] / 1000)
+        return orig_facet(*a, **kw)
+    lin.create_openfilter_facet_with_fields = facet
     em = lin.OpenFilterLineage(client=Cap(), interval=1, filter_name='F')
     em.interval = case['interval_ms'] / 1000
     res = {}
@@ -121,13 +131,14 @@ def run_case(case):
         world.spawn('main', main)
         if end == 'stop_evt':
             world.at(int(max(1, k * case['work_ms'] + 7) * 1_000_000), stop_evt.set)
-        horizon = (k + 3) * case['work_ms'] + 6 * case['interval_ms'] + 40 * case['emit_cost_ms'] + 3000
-        world.run(int(horizon * 1_000_000), stop=lambda: 'how' in res and world.now > res['t_end'] + int((2 * case['interval_ms'] + 10 * case['emit_cost_ms'] + 200) * 1_000_000))
+        horizon = (k + 3) * case['work_ms'] + 6 * case['interval_ms'] + 40 * (case['emit_cost_ms'] + (case.get('preempt_ms') or 0)) + 3000
+        world.run(int(horizon * 1_000_000), stop=lambda: 'how' in res and world.now > res['t_end'] + int((2 * case['interval_ms'] + 10 * (case['emit_cost_ms'] + (case.get('preempt_ms') or 0)) + 200) * 1_000_000))
         hb_alive = [a.name for a in world.actors if a.name != 'main' and not a.done]
     finally:
         world.shutdown()
         harness.uninstall()
         lin.threading = _S['real_threading']
+        lin.create_openfilter_facet_with_fields = orig_facet
     seq = [e[0] for e in events]
     classes = [f'end {end}', f'emit cost {case["emit_cost_ms"]}', f'interval {case["interval_ms"]}']
     if 'how' not in res:
@@ -163,12 +174,14 @@ def matrix_cases(tier):
         for k in (0, 3, 12):
             for cost in (0, 30, 400):
                 for interval in (1000, 250):
-                    yield {'end': end, 'k': k, 'work_ms': 100, 'emit_cost_ms': cost, 'interval_ms': interval}
+                    for pre in (None, 40):
+                        yield {'end': end, 'k': k, 'work_ms': 100, 'emit_cost_ms': cost, 'interval_ms': interval, 'preempt_ms': pre}
 
 
 case_st = st.fixed_dictionaries({
     'end': st.sampled_from(ENDS), 'k': st.integers(0, 30), 'work_ms': st.sampled_from([1, 10, 50, 100, 333, 1000]),
     'emit_cost_ms': st.sampled_from([0, 0, 1, 30, 99, 100, 400, 1500]), 'interval_ms': st.sampled_from([100, 250, 1000, 1000, 3000]),
+    'preempt_ms': st.sampled_from([None, 0, 1, 7, 40, 99, 250]),
 })
 
 PARTS = [
